@@ -73,6 +73,33 @@ def run(ctx, widen=False):
     ctx.sample({"prog": "3(X)", "depths": "(1,1,2,0) before and after", "n_after": 0})
     ctx.sample(cases[len(FIXED)])
     aststream.run_stream(ctx, [c["prog"] for c in cases])
+    verdict_stream(ctx, [c["prog"] for c in cases])
+
+
+def verdict_stream(ctx, programs):
+    """ties the tree-level theorem `transpile_balanced` to the run-time oracle: the model's placement predicate `bplL .plain`
+    (hypothesis) and the delta typing's verdict on the transpiled tree (conclusion) for every generated program — the same
+    programs whose real runs the `balanced` oracle judges; the programs outside the hypothesis are counted (they are the
+    X-in-a-while-condition / X-in-a-list-item call sites)"""
+    programs = list(dict.fromkeys(programs))
+    out = ctx.driver(["placed\t" + vy.cps(p) for p in programs])
+    ctx.count("corr:balance-verdict", len(programs))
+    st = {"bpl=T,bal=T": 0, "bpl=F": 0, "skip": 0, "disagree": 0}
+    for p, m in zip(programs, out):
+        if m.startswith("ERR") or "wf=ERR" in m:
+            st["skip"] += 1
+            continue
+        bpl, bal = "bpl=T" in m, "bal=T" in m
+        if not bpl:
+            st["bpl=F"] += 1
+            continue
+        if bal:          # (the real run of the same program is judged by the `balanced` oracle above)
+            st["bpl=T,bal=T"] += 1
+        else:
+            st["disagree"] += 1
+            ctx.disagree("balance-verdict", p, "the theorem transpile_balanced says: accepted", m)
+    for k, v in st.items():
+        ctx.bump("verdict:" + k, v)
 
 
 def search(ctx):
